@@ -143,3 +143,64 @@ func AddNestedConflict(w *World, id int, plugin string) string {
 	w.Calls = append(w.Calls, mk("NA", Basic("string"), 10), mk("NB", Basic("int64"), 20))
 	return fmt.Sprintf("nested conflict: %sNC(deriveKeysNA(map[string]bool)) and %sNC(deriveKeysNB(map[int64]bool))", PluginPrefix[plugin], PluginPrefix[plugin])
 }
+
+// sameNamedFields: one struct of package p with fields of the same-named
+// types of the two same-named imported packages (ext.T holds a slice,
+// other/ext.T is comparable), in a tape-drawn order, under one or two plugins
+// that decide per field type how to treat it.
+func (g *gen) sameNamedFields() {
+	w, t := g.w, g.t
+	fs := []Field{{Name: "A", Ty: Named("oext", "T")}, {Name: "B", Ty: Named("ext", "T")}}
+	if t.Bool() {
+		fs[0].Ty, fs[1].Ty = fs[1].Ty, fs[0].Ty
+	}
+	switch t.Intn(3) {
+	case 1:
+		fs = append(fs, Field{Name: "C", Ty: Slice(Named("oext", "T"))})
+	case 2:
+		fs = append([]Field{{Name: "Z", Ty: Map(Basic("string"), Named("ext", "T"))}}, fs...)
+	}
+	S := &Decl{Name: fmt.Sprintf("SN%d", g.id()), Struct: true, Fields: fs}
+	w.Decls = append(w.Decls, S)
+	plugins := []string{"equal", "compare", "hash", "clone", "deepcopy"}
+	k := t.Intn(len(plugins))
+	for i := 0; i < 1+t.Intn(2); i++ {
+		if c := g.simple(plugins[(k+i)%len(plugins)], Ptr(Named("", S.Name))); c != nil {
+			if f := g.finish(c, ""); f != nil {
+				w.Calls = append(w.Calls, f)
+			}
+		}
+	}
+}
+
+// twin switches the twin package on (see twinSource) and makes package p ask
+// the questions the twin asks too: a struct holding p's own S0 (and another of
+// p's named types) by value, in a slice and in a map, under the plugins the
+// twin uses.
+func (g *gen) twin() {
+	w, t := g.w, g.t
+	w.Twin = 1 + t.Intn(3)
+	var names []string
+	for _, d := range w.Decls {
+		switch d.Name {
+		case "S0", "S1", "S2", "N0":
+			names = append(names, d.Name)
+		}
+	}
+	if len(names) == 0 {
+		return
+	}
+	a := Named("", names[t.Intn(len(names))])
+	b := Named("", names[t.Intn(len(names))])
+	S := &Decl{Name: fmt.Sprintf("SH%d", g.id()), Struct: true, Fields: []Field{{Name: "V", Ty: a}, {Name: "L", Ty: Slice(b)}, {Name: "M", Ty: Map(Basic("string"), a)}}}
+	w.Decls = append(w.Decls, S)
+	plugins := []string{"equal", "compare", "hash", "clone", "deepcopy"}
+	k := t.Intn(len(plugins))
+	for i := 0; i < 1+t.Intn(3); i++ {
+		if c := g.simple(plugins[(k+i)%len(plugins)], Ptr(Named("", S.Name))); c != nil {
+			if f := g.finish(c, ""); f != nil {
+				w.Calls = append(w.Calls, f)
+			}
+		}
+	}
+}
